@@ -63,6 +63,8 @@ def h_op(r, refs, big=False):
     ref = refs.new(r, tag)
     k = r.random()
     n = r.choice([1, 2, 3, 5, 8, 13, 20, 40]) if not big else r.choice([100, 300])
+    if k < 0.12:
+        return "putn %d %s" % (tag, hexs(rbytes(r, n)))          # reference number chosen by Hnewref
     if k < 0.5:
         return "put %d %d %s" % (tag, ref, hexs(rbytes(r, n)))
     if k < 0.75:
@@ -89,6 +91,20 @@ def sd_op(r, names):
     return "sds sd%d %d %s %d" % (i, nt, dims, r.randrange(1, 30000))
 
 
+def sdmeta_op(r, names):
+    i = len(names)
+    names.append(i)
+    if r.random() < 0.6:
+        return "sdsnd sn%d %d %s" % (i, r.choice([20, 22, 24, 5]), r.choice(["3", "2x3", "4x2"]))
+    return "sdgattr ga%d %d" % (i, r.randrange(1, 30000))
+
+
+def sdu_op(r, names):
+    i = len(names)
+    names.append(i)
+    return "sdsu su%d %d %d %d %d" % (i, r.choice([20, 22, 24]), r.choice([1, 2, 3]), r.choice([1, 2, 3, 5]), r.randrange(1, 30000))
+
+
 def gr_op(r, names):
     i = len(names)
     names.append(i)
@@ -101,7 +117,13 @@ def an_op(r, refs):
 
 
 def gen_session(r, name, kind=None):
-    kind = kind or r.choice(["H", "H", "H", "V", "HV", "HV", "SD", "GR", "AN", "MIX", "VGADD"])
+    kind = kind or r.choice(["H", "H", "H", "V", "HV", "HV", "SD", "GR", "AN", "MIX", "VGADD", "SDMETA", "SDU", "HDEL",
+                             "REFWRAP", "REFWRAP"])
+    if kind == "REFWRAP":
+        return gen_refwrap(r, name)
+    if kind == "DFSD":
+        return {"name": name, "kind": kind, "ndds": 16, "base": ["dfsd %s %d" % (r.choice(["3x4", "5", "2x3"]), r.randrange(1, 30000))],
+                "ops": [sd_op(r, []) if r.random() < 0.7 else sdmeta_op(r, [])]}
     ndds = r.choice([4, 4, 5, 16])
     refs, names = Refs(), []
     base = []
@@ -122,8 +144,10 @@ def gen_session(r, name, kind=None):
         for _ in range(ndds):
             tag = r.choice(HTAGS)
             base.append("app %d %d" % (tag, refs.new(r, tag)))
-    if kind in ("SD", "MIX"):
+    if kind in ("SD", "MIX", "SDMETA"):
         base += [sd_op(r, names) for _ in range(r.randrange(1, 3))]
+    if kind == "SDU" or (kind in ("SD", "MIX") and r.random() < 0.3):
+        base += [sdu_op(r, names) for _ in range(r.randrange(1, 3))]
     if kind in ("GR", "MIX"):
         base += [gr_op(r, names) for _ in range(r.randrange(1, 3))]
     if kind in ("AN", "MIX"):
@@ -139,7 +163,27 @@ def gen_session(r, name, kind=None):
     elif kind == "HV":
         ops = [h_op(r, refs) if r.random() < 0.5 else v_op(r, names) for _ in range(r.choice([2, 4, 7, 11]))]
     elif kind == "SD":
-        ops = [sd_op(r, names) for _ in range(r.choice([1, 2, 3]))]
+        ops = [r.choice([sd_op, sd_op, sdu_op, sdmeta_op])(r, names) for _ in range(r.choice([1, 2, 3]))]
+    elif kind == "SDMETA":
+        # metadata-only session: the old description is deleted and rewritten, nothing else is allocated before
+        ops = [sdmeta_op(r, names) for _ in range(r.choice([1, 1, 2, 3]))]
+    elif kind == "SDU":
+        ops = [sdu_op(r, names) for _ in range(r.choice([1, 2]))] + ([sd_op(r, names)] if r.random() < 0.3 else [])
+    elif kind == "HDEL":
+        # delete-then-append at the element level (first sentence only): old elements are deleted -- among them,
+        # usually, the one stored LAST in the file -- before anything new is allocated
+        olds = [(o.split()[1], o.split()[2]) for o in base if o.split()[0] in ("put", "sw") and
+                (o.split()[0] == "put" or o.split()[3] != "0")]
+        if not olds:
+            base.append("put 800 77 aabbcc")
+            olds = [("800", "77")]
+        last_h = [o for o in base if o.split()[0] in ("put", "sw", "vs", "vg", "hl", "app")][-1].split()
+        if last_h[0] != "put":
+            base.append("put 801 78 0102030405060708")
+            olds.append(("801", "78"))
+        victims = [olds[-1]] if r.random() < 0.8 else []
+        victims += [o for o in olds[:-1] if r.random() < 0.3]
+        ops = ["del %s %s" % v for v in victims] + [h_op(r, refs) for _ in range(r.choice([1, 2, 4]))]
     elif kind == "GR":
         ops = [gr_op(r, names) for _ in range(r.choice([1, 2, 3]))]
     elif kind == "AN":
@@ -157,6 +201,26 @@ def gen_session(r, name, kind=None):
     if kind in FULL_KINDS and len(ops) >= 2 and r.random() < 0.3:
         ops.insert(r.randrange(1, len(ops)), "sync")
     return {"name": name, "kind": kind, "ndds": ndds, "base": base, "ops": ops}
+
+
+def gen_refwrap(r, name):
+    """the reference-number boundary: the old file uses refs 1..n densely (all handed out by Hnewref, over more
+    than one DD block) and ALSO ref 65535, so every Hnewref of the session has to search for a free ref"""
+    ndds = r.choice([4, 4, 5])
+    flavour = r.choice(["h", "v", "hv"])
+    names = []
+
+    def one():
+        if flavour == "h" or (flavour == "hv" and r.random() < 0.5):
+            return "putn 800 %s" % hexs(rbytes(r, 4))
+        return v_op(r, names)
+    base = [one() for _ in range(r.randrange(ndds + 1, 3 * ndds + 2))]
+    base.append("put 803 65535 %s" % hexs(rbytes(r, 3)))
+    ops = [one() for _ in range(r.choice([1, 2, 3, ndds + 1]))]
+    if len(ops) >= 2 and r.random() < 0.3:
+        ops.insert(1, "sync")
+    return {"name": name, "kind": {"h": "H", "v": "V", "hv": "HV"}[flavour], "ndds": ndds, "base": base, "ops": ops,
+            "refwrap": True}
 
 
 def session_text(s):
@@ -200,7 +264,7 @@ def parse_replay(lines):
 def classify_ops(ops):
     """kind implied by the operations themselves (used for replays / shrunk sessions)"""
     ks = set(o.split()[0] for o in ops)
-    if ks & {"sds", "gr", "an", "vgadd"}:
+    if ks & {"sds", "gr", "an", "vgadd", "sdsnd", "sdgattr", "sdsu", "del"}:
         return "META"
     return "HV"
 
@@ -267,6 +331,10 @@ def model_ops(s):
             out.append("put %s %s %s %s" % (t[1], t[2], t[3], t[4]))
         elif t[0] == "app":
             out.append(o)
+        elif t[0] == "putn":
+            out.append("putn %s %d %s" % (t[1], 0 if t[2] == "-" else len(t[2]) // 2, t[2]))
+        elif t[0] == "del":
+            out.append(o)
         elif t[0] == "sync":
             out.append("sync")
         else:
@@ -299,12 +367,14 @@ def run_S(ctx, sessions, R, tag):
         if not t:
             continue
         if t[0] == "S":
-            cur = {"P": {}, "A": {}, "ML": [], "E": None, "wf": None}
+            cur = {"P": {}, "A": {}, "ML": [], "E": None, "wf": None, "D": []}
             res[t[1]] = cur
         elif t[0] == "wf":
             cur["wf"] = int(t[1])
         elif t[0] == "E":
             cur["E"] = None if t[1] == "fail" else int(t[1])
+        elif t[0] == "D":
+            cur["D"].append(tuple(int(x) for x in t[1:5]))
         elif t[0] == "P":
             cur["P"][int(t[1])] = (int(t[2]), int(t[3]))
         elif t[0] == "A":
@@ -393,6 +463,26 @@ def judge(s, r, sp, defs):
     return fails, corr, st
 
 
+def known_signature(s, r, sp):
+    """signature of a recorded finding, computed from the failing input itself:
+    'sd-session-on-dfsd-file-rewrites-ndg-in-place' = the old file was written by the DFSD interface (no netCDF-style
+    description whose members SDend could delete), the session goes through SDend's metadata rewrite, and EVERY
+    pre-flush write below the old end of file lies inside an old NDG / SDG element (tags 720 / 700)"""
+    if sp is None or sp.get("E") is None:
+        return None
+    if not any(o.split()[0] == "dfsd" for o in s["base"]):
+        return None
+    if not any(o.split()[0] in ("sds", "sdsnd", "sdsu", "sdgattr") for o in s["ops"]):
+        return None
+    below = [(off, len(hx) // 2) for off, fl, hx in r["W"] if fl == 0 and off < sp["E"]]
+    if not below:
+        return None
+    for off, n in below:
+        if not any(d[0] in (720, 700) and d[2] <= off and off + n <= d[2] + d[3] for d in sp["D"]):
+            return None
+    return "sd-session-on-dfsd-file-rewrites-ndg-in-place"
+
+
 def still_fails(ctx, s):
     rc, R, defs = run_R(ctx, [s], "shrink")
     r = R.get(s["name"])
@@ -455,11 +545,16 @@ def run(ctx):
             sessions.append(s)
     ncorpus = len(sessions)
     n = 80 if ctx.tier == "quick" else 900
-    kinds_cycle = ["H", "H", "H", "V", "HV", "SD", "GR", "AN", "MIX", "H", "HV", "VGADD"]
+    kinds_cycle = ["H", "REFWRAP", "H", "V", "HV", "SD", "GR", "AN", "MIX", "SDMETA", "SDU", "VGADD", "HDEL", "REFWRAP",
+                   "DFSD", "SDMETA", "HDEL", "REFWRAP", "H", "HV", "V", "SDU", "SD", "MIX", "REFWRAP", "SDMETA"]
     for i in range(n):
-        sessions.append(gen_session(r, "g%d" % i, kind=kinds_cycle[i % len(kinds_cycle)] if i < 24 else None))
+        sessions.append(gen_session(r, "g%d" % i, kind=kinds_cycle[i % len(kinds_cycle)] if i < 2 * len(kinds_cycle) else None))
+    import time
+    t0 = time.time()
     rc, R, defs = run_R(ctx, sessions, "main")
+    t1 = time.time()
     S = run_S(ctx, sessions, R, "main")
+    vc.log("C17: library run %.1fs, specification/model run %.1fs" % (t1 - t0, time.time() - t1))
     stats = {"sessions": len(sessions), "corpus_sessions": ncorpus, "by_kind": {}, "prefix_images": 0, "writes": 0,
              "flush_writes": 0, "sessions_with_new_dd_block": 0, "new_dd_blocks_hist": {}, "model_compared": 0,
              "model_mismatch": 0, "old_images_well_formed": 0, "session_op_failed": 0, "mid_sync_sessions": 0,
@@ -492,6 +587,12 @@ def run(ctx):
                  sample={"kind": s["kind"], "ndds": s["ndds"], "base": s["base"][:3], "ops": s["ops"][:4],
                          "writes": st["writes"], "flush_writes": st["flush_writes"], "new_dd_blocks": nb,
                          "old_objects": nold} if len(ctx.coverage["samples"]) < 5 and nb else None)
+        if fails:
+            sig = known_signature(s, rr, sp)
+            if sig is not None and ctx.match_known(sig) is not None:
+                ctx.violation("known finding", "", found=True, signature=sig)
+                stats["known_finding_sessions"] = stats.get("known_finding_sessions", 0) + 1
+                continue
         if fails and nviol < 3:
             nviol += 1
             small = shrink(ctx, s) if fails[0][0] != -1 else s
@@ -519,7 +620,9 @@ def run(ctx):
     ctx.corr("crash-images~CrashSpec", **{k: stats[k] for k in (
         "sessions", "corpus_sessions", "by_kind", "prefix_images", "writes", "flush_writes",
         "sessions_with_new_dd_block", "new_dd_blocks_hist", "old_images_well_formed", "session_op_failed",
-        "mid_sync_sessions", "old_objects_hist", "harness_rc")})
+        "mid_sync_sessions", "old_objects_hist", "harness_rc")},
+        known_finding_sessions=stats.get("known_finding_sessions", 0),
+        refwrap_sessions=sum(1 for s in sessions if s.get("refwrap")))
     ctx.corr("writelog~CrashModel", sessions_compared=stats["model_compared"], mismatching=stats["model_mismatch"])
 
 
